@@ -25,7 +25,7 @@ func TestC15(t *testing.T) {
 		u := newCDP(t, cdpOpts{variant: variant})
 		u.c.App.NewliqKeeper.SetParams(u.c.Ctx(), liqV2types.Params{LiquidationBatchSize: uint64([]int{200, 3}[variant%2])})
 		rnd := rng("C15", run)
-		cfg := cdpCfg{priceMoves: true, bids: true, lockers: true, unsolicited: true, liquidateMsg: true, limitBids: true, maxGap: 3 * 3600 * 1e9}
+		cfg := cdpCfg{priceMoves: true, bids: true, lockers: true, unsolicited: true, liquidateMsg: true, limitBids: true, reserve: true, maxGap: 3 * 3600 * 1e9}
 		r := newCdpRunner(u, rnd, rec, cfg)
 		r.panicIsViolation = true
 		per := cdpSteps() / (boundaries + 1)
